@@ -1231,8 +1231,14 @@ class EqSimplifyMacro(Macro):
         if lhs.is_equals():
             if lhs.lhs == lhs.rhs and rhs == true:
                 return Thm(arg)
-            elif lhs.lhs != lhs.rhs and rhs == false:
-                return Thm(arg)
+            elif rhs == false and lhs.lhs.is_constant() and lhs.rhs.is_constant():
+                # two numeric constants with different values
+                T = lhs.lhs.get_type()
+                if T == hol_type.IntType and integer.int_eval(lhs.lhs) != integer.int_eval(lhs.rhs):
+                    return Thm(arg)
+                if T == hol_type.RealType and real.real_eval(lhs.lhs) != real.real_eval(lhs.rhs):
+                    return Thm(arg)
+                raise VeriTException("eq_simplify", "the two sides are not different numeric constants")
             else:
                 raise VeriTException("eq_simplify", "rhs doesn't obey eq_simplify rule")
         elif lhs.is_not():
